@@ -60,12 +60,27 @@ type Result struct {
 	Subscribes  int
 	Steps       int
 	Nontrivial  bool
+
+	// family stale-rewind: measured when the judged Update was sent
+	StaleRel   string // relation fork/rewind/caller height, "" = caller's block was on the best chain
+	StaleDepth int    // blocks the caller held that were off the best chain
 }
 
 // Fingerprint is the normalised shape of the case.
 func (r *Result) Fingerprint() string {
-	return fmt.Sprintf("%s|fork=%s|depth=%s|fail=%s|upd=%s|start=%s/%s|end=%s",
+	fp := fmt.Sprintf("%s|fork=%s|depth=%s|fail=%s|upd=%s|start=%s/%s|end=%s",
 		r.Phase, r.ForkRel, r.DepthBucket, r.FailKind, r.UpdShape, r.Plan.StartKind, r.Plan.StartTimeK, r.Plan.EndKind)
+	if sp := r.Plan.Stale; sp != nil {
+		rel := r.StaleRel
+		if rel == "" {
+			rel = "on-best-chain"
+		}
+		fp += fmt.Sprintf("|at-update=%s|ntfn=%s", rel, r.Plan.Ntfn)
+		if sp.Mode == "queued" {
+			fp += "|flush=" + sp.Flush
+		}
+	}
+	return fp
 }
 
 type runner struct {
@@ -85,6 +100,7 @@ type runner struct {
 	failKind map[string]bool
 	updKinds map[string]bool
 	maxRel   int
+	updGid   atomic.Value // string: goroutine id of the goroutine that calls Rescan.Update
 }
 
 func (p *Plan) addr(k WatchKey) (address.Address, error) {
@@ -155,6 +171,7 @@ func RunCase(p *Plan) (res *Result) {
 	updWG.Add(1)
 	go func() {
 		defer updWG.Done()
+		x.updGid.Store(goid())
 		for u := range x.updCh {
 			uo, err := x.updateOptions(u)
 			if err != nil {
@@ -376,6 +393,7 @@ func (x *runner) handlers() rpcclient.NotificationHandlers {
 			x.lg.add(Ev{Kind: EvConn, Height: height, Hash: hdr.BlockHash(), Prev: hdr.PrevBlock,
 				Time: hdr.Timestamp.Unix(), txs: txHashes(txs), Note: "via " + via})
 			c.leave("cb-connected", pk)
+			c.held(hdr.BlockHash())
 		},
 		OnFilteredBlockDisconnected: func(height int32, hdr *wire.BlockHeader) {
 			pk := c.enter("cb-disconnected")
@@ -436,7 +454,26 @@ func (x *runner) exec(op Op) {
 		x.trace("%s%s", op, x.where())
 		x.ch.rollback(op.N)
 
+	case OpRollbackQuiet:
+		x.noteReorg(op.N)
+		x.trace("%s%s", op, x.where())
+		x.ch.rollbackQuiet(op.N)
+
+	case OpNotifyDisc:
+		n := x.ch.flushDisconnected(!op.Drop)
+		x.trace("%s n=%d%s", op, n, x.where())
+
+	case OpHold:
+		x.ch.hold(op.Nodes[0])
+		x.armed = true
+
+	case OpWaitUpdBlocked:
+		x.waitUpdateBlocked()
+
 	case OpUpdate:
+		if sp := x.p.Stale; sp != nil && op.Upd.ID == sp.UpdID {
+			x.noteStale(op.Upd)
+		}
 		x.res.Updates++
 		if op.Upd.Rewind > 0 {
 			x.res.Rewinds++
@@ -557,9 +594,67 @@ func (x *runner) noteReorg(depth int) {
 	}
 }
 
+// noteStale measures, at the moment the judged Update of a stale-rewind case
+// is handed to Rescan.Update, how the block the caller holds relates to the
+// visible (best) chain and to the rewind height (statistics / fingerprint).
+func (x *runner) noteStale(u *UpdSpec) {
+	curHash, curH, have, _, _ := x.lg.tracker()
+	if !have {
+		curHash, curH = x.p.StartNode.Hash, x.p.StartNode.Height
+	}
+	n := x.p.G.ByHash[curHash]
+	depth := 0
+	for n != nil && !x.ch.onVisible(n.Hash) {
+		n = n.Parent
+		depth++
+	}
+	if n == nil || depth == 0 {
+		x.trace("update#%d sent with the caller's block on the best chain", u.ID)
+		return
+	}
+	fork := n.Height
+	switch h := int32(u.Rewind); {
+	case h > curH:
+		x.res.StaleRel = relRewindAboveCur
+	case h == curH:
+		x.res.StaleRel = relRewindAtCur
+	case h > fork:
+		x.res.StaleRel = relForkBelowRewind
+	default:
+		x.res.StaleRel = relRewindAtFork
+	}
+	x.res.StaleDepth = depth
+	x.trace("update#%d sent with the caller at %d on a stale branch (fork %d, %d stale blocks, rewind %d): %s",
+		u.ID, curH, fork, depth, u.Rewind, x.res.StaleRel)
+}
+
+// waitUpdateBlocked waits (pacing only) until the goroutine calling
+// Rescan.Update sits in Update's select, i.e. the update is on offer to the
+// rescan goroutine before the gate opens.
+func (x *runner) waitUpdateBlocked() {
+	gid, _ := x.updGid.Load().(string)
+	deadline := time.Now().Add(paceTimeout)
+	for time.Now().Before(deadline) {
+		if x.pending.Load() == 0 {
+			x.trace("update already taken")
+			return
+		}
+		st, fr := goroutineFrames(allStacks(), gid)
+		if st == "select" && strings.Contains(fr, "(*Rescan).Update") {
+			x.trace("update call parked on the update channel")
+			return
+		}
+		time.Sleep(2 * time.Millisecond)
+	}
+	x.trace("update call not seen parked")
+}
+
 func (x *runner) shape() {
 	r := x.res
 	r.Phase = x.p.Family
+	if sp := x.p.Stale; sp != nil {
+		r.Phase += "/" + sp.Mode
+	}
 	if r.Parks > 0 {
 		r.Phase += "/parked"
 	}
